@@ -61,9 +61,11 @@ def jobs_from_paths(g, paths, rng):
 def mkjob(st0, ops, expect, rng):
     lk = list(st0['lk'])
     # the model's "import" stands for both `import m` and `from m import name`
-    lk = [(rng.choice(['import', 'from']) if k == 'import' else k) for k in lk]
-    return {'id': 0, 'lk': lk, 'disk0': list(st0['disk']), 'ops': ops, 'expect': expect,
-            'layout': rng.choice(['flat', 'pkg'])}
+    # (in the package layout also `from pk import m`: the submodule as an attribute of its package)
+    layout = rng.choice(['flat', 'pkg'])
+    forms = ['import', 'from'] + (['frompkg', 'frompkg'] if layout == 'pkg' else [])
+    lk = [(rng.choice(forms) if k == 'import' else k) for k in lk]
+    return {'id': 0, 'lk': lk, 'disk0': list(st0['disk']), 'ops': ops, 'expect': expect, 'layout': layout}
 
 
 def jobs_from_sim(files, rng):
@@ -220,7 +222,7 @@ def run(tier, replay=None):
             ck.violation(sig, 'a long-lived Project answers differently from a fresh one after the history %s (links %s): %s' % (
                 json.dumps(ops), j['lk'], json.dumps(ev.get('diff'))[:500]), dict(sig, event=ev))
         ck.rule = ('histories = behaviours of ProjectCache.tla over the chain main->mb->mc->md (edge cover of the dumped graph with '
-                   '%s disk operations/requests, -simulate behaviours of length 30), link kinds import/from/star, flat and package '
+                   '%s disk operations/requests, -simulate behaviours of length 30), link kinds import / from-import / from-package-import-submodule / star, flat and package '
                    'layout; non-trivial = at least one disk operation between two requests; distinct by (links, layout, initial disk, operations)'
                    % ('<= 5' if thorough else '<= 4'))
         ck.exhaustive = False
